@@ -456,7 +456,8 @@ def run_check(pid: str, tier: str) -> int:
     with open(os.path.join(EVIDENCE, f"{pid}.json"), "w") as f:
         json.dump(_strict(doc), f, indent=1, default=str, allow_nan=False)
     print(f"[{pid}] runs={agg['n']} distinct={len(agg['digests'])} nontrivial={dn} faults={dict(agg['faults'])} "
-          f"known={len(known_seen)} new_violations={len(new_sigs)} errors={len(agg['errors'])} wall={wall:.1f}s", flush=True)
+          f"known={len(known_seen)} new_violations={len(new_sigs)} errors={len([e for e in agg['errors'] if 'harness watchdog' not in e['error']])} "
+          f"abandoned={len([e for e in agg['errors'] if 'harness watchdog' in e['error']])} wall={wall:.1f}s", flush=True)
     # A run that exhausts the watchdog's CPU allowance is abandoned, not judged: the operations themselves are bounded by
     # deterministic caps (random draws, gene reads), so such a run is a huge but finite computation.  A handful per check is
     # reported and tolerated; more than that (or any other harness exception) makes the check fail as a harness error.
